@@ -23,8 +23,10 @@ BOUNDARY_DATES = ["2000-02-29T00:00:00Z", "2400-02-29T23:59:59Z", "2024-02-29T12
                   "2038-01-19T03:14:08Z", "0001-01-01T00:00:00Z", "9999-12-31T23:59:59Z", "1999-12-31T23:59:59Z", "2100-02-28T23:59:59Z",
                   "1900-03-01T00:00:00Z", "2021-10-31T01:30:00Z", "2016-12-31T23:59:59Z", "1600-02-29T00:00:00Z"]
 
-STRATA = ["named", "named", "named", "other_role", "untrusted_own", "union", "below", "type_confusion", "unknown_role",
-          "named_junk", "trusted_malformed", "named_with_stale_listed", "named_with_stale_listed"]
+STRATA = ["named", "named", "named", "other_role", "untrusted_own", "union", "below", "below", "type_confusion", "unknown_role",
+          "named_junk", "trusted_malformed", "named_with_stale_listed", "named_with_stale_listed", "empty_keylist"]
+# member names learned from the library's own code (gen.vocab), set by the property module at shard start
+EXTRA_NAMES = []
 
 
 def gen_case(rng, gpg=None, stratum=None):
@@ -56,6 +58,12 @@ def gen_case(rng, gpg=None, stratum=None):
             t = len(ks) + 1  # legal "draft" shape: can never be met
         rolekeys[n] = (ks, t)
         dels[n] = gmd.delegation(ks, t)
+    if stratum == "empty_keylist":
+        # a role that IS delegated, to nobody yet (a draft: empty key list, positive threshold): it is a known role whose
+        # threshold nothing can meet - whoever signs
+        n = rng.choice(names)
+        rolekeys[n] = ([], rng.choice([1, 1, 2]))
+        dels[n] = gmd.delegation([], rolekeys[n][1])
     ttype = rng.choice(["root", "key_mgr"])
     if rng.random() < 0.06:
         # integral non-int numerics (accepted by the checker today; verdict is a grey zone, purity is not)
@@ -64,6 +72,8 @@ def gen_case(rng, gpg=None, stratum=None):
     trusted = gmd.envelope(gmd.delegating(ttype, dels, version=rng.choice([rng.randint(1, 9), 3.0]) if rng.random() < 0.1 else rng.randint(1, 9)))
     attackers = U[7:10]
     role = rng.choice(names)
+    if stratum == "empty_keylist":
+        role = next(n for n in names if not rolekeys[n][0])
     if stratum == "unknown_role":
         role = rng.choice([r for r in ROLE_POOL + ["nope", "root.json"] if r not in names])
         if rng.random() < 0.6:
@@ -143,6 +153,22 @@ def gen_case(rng, gpg=None, stratum=None):
                 usigned = {"type": usigned["type"], "payload": [1, 2, 3]}
             elif usigned["type"] in ("root", "key_mgr"):
                 usigned.pop("expiration")
+    extras = False
+    if EXTRA_NAMES and rng.random() < 0.2:
+        # members the stated rules say nothing about, under every name the library's code mentions, referring to this scenario's
+        # keys and roles - in the presented document (before it is signed) and / or in the trusted one
+        rk = [k.hex for k in (rolekeys.get(role) or ([], 1))[0]]
+        val = rng.choice([rk, rk[:1], rk[1:], [k.hex for k in attackers], {h: True for h in rk}, 1, True, "strict", [], role,
+                          {role: {"pubkeys": [k.hex for k in attackers], "threshold": 1}}, [k.hex for k in U]])
+        where = rng.choice(["untrusted", "trusted", "both"])
+        if where in ("untrusted", "both") and isinstance(usigned, dict):
+            for n in EXTRA_NAMES:
+                usigned.setdefault(n, copy.deepcopy(val))
+            extras = True
+        if where in ("trusted", "both"):
+            for n in EXTRA_NAMES:
+                trusted["signed"].setdefault(n, copy.deepcopy(val))
+            extras = True
     untrusted = gmd.envelope(usigned)
     data = canonjson.canon(usigned)
     vs = gentries.valid_states(gpg)
@@ -166,6 +192,10 @@ def gen_case(rng, gpg=None, stratum=None):
         for k in ks:
             if k.hex not in {g.hex for g in good}:
                 sign([k], rng.choice(wf))
+    elif stratum == "empty_keylist":
+        for n in others:
+            sign(rolekeys[n][0])
+        sign(attackers[:2])
     elif stratum in ("named", "named_junk", "type_confusion", "unknown_role"):
         if ks:
             sign(rng.sample(ks, rng.randint(min(t, len(ks)), len(ks))))
@@ -188,8 +218,19 @@ def gen_case(rng, gpg=None, stratum=None):
     elif stratum == "below":
         sign(rng.sample(ks, min(len(ks), t - 1)))
         rest = [k for k in ks if k.hex not in untrusted["signatures"]]
-        if rest:
+        if rest and rng.random() < 0.6:
             sign(rest[:1], rng.choice(gentries.invalid_states(gpg)))
+        if rng.random() < 0.6:
+            # verbatim copies of the good signers' entries, filed under other spellings and abbreviations of THEIR OWN keys (and of
+            # listed keys that did not sign): one signer, however often and however labelled, is one signer
+            good = [k for k in ks if k.hex in untrusted["signatures"] and k not in rest[:1]]
+            for k in good:
+                for sp in rng.sample(gkeys.respellings(k.hex), rng.randint(1, 4)):
+                    untrusted["signatures"].setdefault(sp, copy.deepcopy(untrusted["signatures"][k.hex]))
+            if good:
+                for k in rest[1:2]:
+                    for sp in rng.sample(gkeys.respellings(k.hex), 2):
+                        untrusted["signatures"].setdefault(sp, copy.deepcopy(untrusted["signatures"][good[0].hex]))
     if stratum == "named_junk" or rng.random() < 0.25:
         for _ in range(rng.randint(1, 4)):
             k, v = gentries.junk_pair(rng)
@@ -244,8 +285,11 @@ def gen_case(rng, gpg=None, stratum=None):
     items = list(untrusted["signatures"].items())
     rng.shuffle(items)
     untrusted["signatures"] = dict(items)
-    return {"kind": "deleg", "role": role, "untrusted": untrusted, "trusted": trusted, "gpg": gpg, "stratum": stratum,
+    case = {"kind": "deleg", "role": role, "untrusted": untrusted, "trusted": trusted, "gpg": gpg, "stratum": stratum,
             "ukind": kind}
+    if extras:
+        case["extras"] = True
+    return case
 
 
 def evaluate(case, lib, fn=None):
@@ -259,6 +303,10 @@ def evaluate(case, lib, fn=None):
         out = boundary.call(lib, f, role, untrusted, trusted, gpg=gpg)
     case["_stdout_write_attempts"] = hs.attempts
     model = hostile.adjust(model, case.get("stdout"))
+    if case.get("extras") and model.v == models.ACCEPT:
+        # members outside the stated schema: a version of the library may give them a meaning and refuse; the statements only say
+        # when a document must NOT be accepted
+        model = models.Verdict(models.GREY, None, (model.why or "") + " (extra members present: acceptance not demanded)")
     mutated = boundary.fingerprint([role, untrusted, trusted]) != before
     return model, failed, out, mutated
 
